@@ -17,7 +17,7 @@ PID = "C07"
 RULE = ("(a) exhaustive: every chain of up to 2 (quick) / 3 (thorough) elements over a fixed 10-spec alphabet x real uid "
         "{0,1000,65534} x stdin {pty,pipe}; (b) Hypothesis chains name[:arg](;name[:arg])* with 0..20 elements, known "
         "and unknown names, empty elements, duplicate/trailing semicolons, bare argument-taking filters, long uid/name "
-        "lists, each run together with a random permutation and a duplication of its elements (metamorphic: same "
+        "lists, one chain in four with two adjacent elements of one uid filter whose arguments are digit-permutations of each other (first passes, second drops), each run together with a random permutation and a duplication of its elements (metamorphic: same "
         "decision). Oracle: conjunction of harness-computed verdicts (getresuid, isatty(0), /proc ancestors); dropped => "
         "zero bytes at every sink and the real exec still reached once with intact arguments. non-trivial = at least "
         "two known filters with differing verdicts, or an unknown/empty element inside a longer chain; distinct by "
@@ -124,6 +124,24 @@ def strategy():
     @st.composite
     def case(draw):
         els = draw(st.lists(element(), min_size=0, max_size=20))
+        uid = draw(st.sampled_from(UIDS))
+        if draw(st.sampled_from([False, False, False, True])):
+            # two ADJACENT elements of the same uid filter whose arguments are made of the same characters (same length, same digits,
+            # commas in the same places) but name different uids: the first passes for this uid, the second drops
+            for _ in range(6):
+                items = [str(uid)] + [str(x) for x in draw(st.lists(st.integers(1, 99), min_size=1, max_size=3))]
+                digits = draw(st.permutations([ch for it in items for ch in it]))
+                other, k = [], 0
+                for it in items:
+                    other.append("".join(digits[k:k + len(it)]))
+                    k += len(it)
+                if any(len(o) > 1 and o[0] == "0" for o in other) or uid in [int(o) for o in other]:
+                    continue
+                a, b = ",".join(items).encode(), ",".join(other).encode()
+                pair = draw(st.sampled_from([[b"only_uid:" + a, b"only_uid:" + b], [b"exclude_uid:" + b, b"exclude_uid:" + a]]))
+                at = draw(st.integers(0, len(els)))
+                els = els[:at] + pair + els[at:]
+                break
         perm = draw(st.permutations(els))
         dup = list(els)
         if els:
@@ -131,7 +149,7 @@ def strategy():
                 i = draw(st.integers(0, len(els) - 1))
                 dup.insert(draw(st.integers(0, len(dup))), els[i])
         trailing = draw(st.sampled_from([b"", b"", b";", b";;"]))
-        return {"els": els, "perm": perm, "dup": dup, "trailing": trailing, "uid": draw(st.sampled_from(UIDS)),
+        return {"els": els, "perm": perm, "dup": dup, "trailing": trailing, "uid": uid,
                 "tty": draw(st.booleans()), "errmode": draw(st.sampled_from([False, False, False, True])),
                 "pre_errno": draw(st.sampled_from([0, 0, 34, 4, 2, 11, 22, 75])),
                 "emptyparent": draw(st.sampled_from([False] * 4 + [True])),
